@@ -23,7 +23,7 @@ TRUSTED = [py2lean.trusted_note("pnorm")]
 PROP_FILES = ["PersimVerif/Props/C10.lean", py2lean.prop_file("pnorm")]
 # the bottleneck clause about what the MODELS return (C10 o C09 o C03 against C01)
 PROP_FILES += ["PersimVerif/Props/C10Model.lean"]
-RULE = ("landscapes built by the real classes from generated diagrams (1-7 bars, one family in twelve 8-30 bars, thorough 8-80; "
+RULE = ("landscapes built by the real classes from generated diagrams (1-7 bars, one family in twelve 8-30 bars, thorough 8-50; "
         "lattice/half/eighth/decimal/uniform "
         "coordinates, whole diagram rescaled by 2^k, k in {-40,-30,-20,-3,0,3,20,30}; duplicates 15%; diagonal bars in a flagged "
         "sub-stream) as single / negated / difference / P-P / random linear combinations of 2-3 landscapes (exact and "
@@ -178,7 +178,7 @@ def zero_function_check(A):
 
 def gen_family(ctx, k, diag_p=0.0):
     """k diagrams sharing coordinate mode and scale (so that their landscapes overlap and differences change sign); one family
-    in twelve has diagrams of up to 30 bars (thorough: 80)"""
+    in twelve has diagrams of up to 30 bars (thorough: 50)"""
     r = ctx.rng
     mode = r.choice(["lattice", "lattice", "half", "eighth", "dec", "unif"])
     scale = 2.0 ** r.choice([-40, -30, -20, -3, 0, 0, 0, 0, 3, 20, 30])
@@ -186,7 +186,7 @@ def gen_family(ctx, k, diag_p=0.0):
     ctx.count("scale:2^%d" % int(math.log2(scale)))
     nmax, nmin = 7, 1
     if r.random() < 1.0 / 12:
-        nmax, nmin = ctx.n(30, 80), 8
+        nmax, nmin = ctx.n(30, 50), 8
         ctx.count("family:large(8..%d bars)" % nmax)
     return mode, scale, [gen_dgm(ctx, mode, scale, nmax=nmax, diag_p=diag_p, nmin=nmin) for _ in range(k)]
 
@@ -1002,7 +1002,7 @@ def stream_bigp(ctx, kf_ovf):
     (NaN, negative, off by a factor, a raise, inf/0.0 nearer to 1) is a violation."""
     r = ctx.rng
     attributed = 0
-    for i in range(ctx.n(500, 6000)):
+    for i in range(ctx.n(500, 4000)):
         mode = r.choice(["lattice", "half", "eighth", "dec", "unif"])
         k = r.choice([-21, -20, -12, -8, -3, 0, 0, 0, 3, 8, 12, 20, 21])
         scale = 2.0 ** k
